@@ -202,7 +202,7 @@ KERNELS = [
     dict(name="DE_get_new_individ_g", file="optimizers/_differentialevolution.py", cls="DifferentialEvolution", func="_get_new_individ_g",
          params=[("individ_g", "Arr"), ("F", "Int"), ("CR", "Int")], ret="Arr",
          self_attrs={"_thefittest._genotype": ("best", "Arr"), "_population_g_i": ("population", "Mat"), "_left": ("left", "Arr"), "_right": ("right", "Arr")},
-         opaque_assign=["mutation_func"], uses=["bounds_control"],
+         opaque_lookups=["self._mutation_pool[self._specified_mutation]"], opaque_assign=["mutation_func"], uses=["bounds_control"],
          ext_fn={"mutation_func": ("donorFn", ["current", "best", "population", "F"], ["Arr", "Arr", "Mat", "Int"]),
                  "binomial": ("crossFn", ["individ", "mutant", "CR"])}),
     dict(name="SHADE_get_new_individ_g", file="optimizers/_shade.py", cls="SHADE", func="_get_new_individ_g",
@@ -218,6 +218,7 @@ KERNELS = [
     dict(name="GA_get_new_individ_g", file="optimizers/_geneticalgorithm.py", cls="GeneticAlgorithm", func="_get_new_individ_g",
          params=[("specified_selection", "Opaque"), ("specified_crossover", "Opaque"), ("specified_mutation", "Opaque")], ret="Arr",
          self_attrs={"_fitness_scale_i": ("fitness_scale", "Arr"), "_fitness_rank_i": ("fitness_rank", "Arr"), "_population_g_i": ("population", "Mat")},
+         opaque_lookups=["self._selection_pool[specified_selection]", "self._crossover_pool[specified_crossover]", "self._mutation_pool[specified_mutation]"],
          opaque_unpack={"selection_func": None, "crossover_func": None, "mutation_func": None,
                         "tour_size": "Int", "quantity": "Int", "proba": "Int", "is_constant_rate": "Bool"},
          opaque_if={"is_constant_rate": ("proba", "proba_eff", "Int")},
@@ -229,6 +230,7 @@ KERNELS = [
          params=[("specified_selection", "Opaque"), ("specified_crossover", "Opaque"), ("specified_mutation", "Opaque")], ret="Int",
          self_attrs={"_fitness_scale_i": ("fitness_scale", "Arr"), "_fitness_rank_i": ("fitness_rank", "Arr"), "_population_g_i": ("population", "Arr"),
                      "_max_level": ("max_level", "Int"), "_uniset": ("uniset", "Int")},
+         opaque_lookups=["self._selection_pool[specified_selection]", "self._crossover_pool[specified_crossover]", "self._mutation_pool[specified_mutation]"],
          opaque_unpack={"selection_func": None, "crossover_func": None, "mutation_func": None,
                         "tour_size": "Int", "quantity": "Int", "proba": "Int", "is_constant_rate": "Bool"},
          opaque_if={"is_constant_rate": ("proba", "proba_eff", "Int")},
@@ -271,6 +273,7 @@ KERNELS = [
          params=[("specified_selection", "Opaque"), ("specified_crossover", "Opaque"), ("specified_mutation", "Opaque")], ret="Mat",
          self_attrs={"_fitness_scale_i": ("fitness_scale", "Arr"), "_fitness_rank_i": ("fitness_rank", "Arr"), "_population_g_i": ("population", "Mat"),
                      "_fitness_i": ("fitness_i", "Arr")},
+         opaque_lookups=["self._selection_pool[specified_selection]", "self._crossover_pool[specified_crossover]", "self._mutation_pool[specified_mutation]"],
          opaque_unpack={"selection_func": None, "crossover_func": None, "mutation_func": None,
                         "tour_size": "Int", "quantity": "Int", "proba": "Int", "is_constant_rate": "Bool"},
          opaque_if={"is_constant_rate": ("proba", "proba_eff", "Int")}, self_append=["_previous_fitness_i"],
@@ -759,9 +762,13 @@ class Tr:
 
     def is_opaque_unpack(self, st):
         """`a, b, ... = <lookup outside the subset>` where every target is declared in opaque_unpack"""
-        return (isinstance(st, ast.Assign) and len(st.targets) == 1 and isinstance(st.targets[0], ast.Tuple)
-                and all(isinstance(el, ast.Name) and el.id in self.opaque_unpack for el in st.targets[0].elts)
-                and isinstance(st.value, ast.Subscript))
+        ok = (isinstance(st, ast.Assign) and len(st.targets) == 1 and isinstance(st.targets[0], ast.Tuple)
+              and all(isinstance(el, ast.Name) and el.id in self.opaque_unpack for el in st.targets[0].elts)
+              and isinstance(st.value, ast.Subscript))
+        if ok and self.cfg.get("opaque_lookups") is not None and ast.unparse(st.value) not in self.cfg["opaque_lookups"]:
+            # WHICH table is read with WHICH key is part of what the theorem's parameters stand for
+            raise NotRecognised(f"lookup {ast.unparse(st.value)} is not one of the declared ones")
+        return ok
 
     @staticmethod
     def is_minus_one(b):
@@ -1254,6 +1261,8 @@ class Tr:
             L.append(f"{{ s with {self.id(st.target.id)} := {self.Ex(st.value, env)} }}")
             return L
         if isinstance(st, ast.Assign) and len(st.targets) == 1 and isinstance(st.targets[0], ast.Name) and st.targets[0].id in self.cfg.get("opaque_assign", []):
+            if self.cfg.get("opaque_lookups") is not None and ast.unparse(st.value) not in self.cfg["opaque_lookups"]:
+                raise NotRecognised(f"lookup {ast.unparse(st.value)} is not one of the declared ones")
             return []
         if self.is_opaque_unpack(st):
             vs = [el.id for el in st.targets[0].elts if self.opaque_unpack[el.id] is not None]
